@@ -11,7 +11,7 @@ ctx = Ctx("DBG", [])
 bins = build_harness(ctx, ["sysrun"])
 hs = run_sysrun(ctx, bins, prof, seed, n)
 print("histories", len(hs), "steps", sum(len(h["steps"]) for h in hs), "failures", [h["failure"][:200] for h in hs if h["failure"]][:3])
-ok, out = coq_build(ctx)
+ok = True
 bad = replay_in_coq(ctx, hs)
 print("mismatching histories:", len(bad))
 for i, (step, d) in sorted(bad.items())[:int(os.environ.get("SHOW", "2"))]:
@@ -19,6 +19,12 @@ for i, (step, d) in sorted(bad.items())[:int(os.environ.get("SHOW", "2"))]:
     print("=== history", i, h["src"], "step", step, d)
     for k in range(max(0, step - 6), step + 1):
         print("  ", k, json.dumps(h["steps"][k]["ev"]), h["steps"][k]["res"])
+    if os.environ.get("WHERE"):
+        o = model_obs_at(ctx, h, step)
+        import re
+        m = re.search(r"Some\s*\(\s*(\w+(?: \d+)?),\s*\((\[[^\]]*\]),\s*(\[[^\]]*\])\)", o)
+        print("   where:", m.groups() if m else o[:300])
+        print("   impl store:", json.dumps(h["steps"][step]["snap"].get("store")), "logs", h["steps"][step]["snap"].get("logs"))
     if os.environ.get("FULL"):
         print("impl snap:", json.dumps(h["steps"][step]["snap"]))
         print("model:", model_obs_at(ctx, h, step)[-6000:])
